@@ -2213,6 +2213,14 @@ class C17(Prop):
                     self.case_display_full):
             out += [fam(rng) for _ in range(4)]
         out += [self.case_display(rng) for _ in range(8)]
+        base, threat = "10 0 1/2 0 3/4 0 1 1 0 none", "10 0 17/2 0 3/4 0 1 1 0 none"
+        out.append({"lines": ["sys 1 2 1/2 100 1000 confirmed:X", "reg 0", f"show 0 {base}", "train 0", "pflag 0 1",
+                              f"show 0 {threat}", "pinspect 0", "pinspect 0", "gset 100", "pinspect 0", "pinspect 0"],
+                    "note": "dedicated: a rule condition raises, then the rules are re-assigned"})
+        out.append({"lines": ["sys 1 2 1/2 100 1000", "reg 0", f"show 0 {base}", "train 0",
+                              "import 0:1:1:confirmed:isolate:0 1:2:1:critical:shutdown:1", f"show 0 {threat}", "pinspect 0",
+                              "reimport", "roundtrip", "pinspect 0", f"show 0 {base}", "pinspect 0"],
+                    "note": "dedicated: imported threats, re-import, persistence round trip"})
         return [c for c in out if c is not None]
 
     def case_malformed(self, rng):
